@@ -22,7 +22,10 @@ Inductive case :=
        (n : Z)                          (* number of traces (runtimes, plus the template probe when copying) *)
        (seqt : list (list result))      (* trace of each runtime running alone *)
        (conc : list (Z * result))       (* global trace of the concurrent run: (runtime, result) by completion time *)
-       (abnormal : list Z).             (* [] = race detector silent and child ended normally; else [exit code] *)
+       (abnormal : list Z)              (* [] = race detector silent and child ended normally; else [exit code] *)
+(* pinned witness of a recorded finding, run sequentially: what otto answered, the deviating
+   answer recorded in findings/C20.json, and the answer independence of runtimes requires *)
+| CPin (class : Z) (obs deviating required : result).
 
 Definition res_eqb : result -> result -> bool := zlist_eqb.
 Definition trace_eqb := list_eqb res_eqb.
@@ -48,4 +51,5 @@ Definition verdict (c : case) : Z * Z :=
           if negb (in_range n conc) || negb (Z.of_nat (length seqt) =? n) then (3, 22)
           else judge traces_eqb (projections n conc) seqt seqt 21
       end
+  | CPin class obs deviating required => judge res_eqb obs deviating required class
   end.
